@@ -455,21 +455,19 @@ def check_constructor(ctx):
 COPY_PROTOCOL = ('__deepcopy__', '__copy__', '__reduce__', '__reduce_ex__', '__getstate__', '__setstate__', '__getnewargs__', '__getnewargs_ex__')
 
 
-def check_copies_keep_state(ctx):
+def check_copies_keep_state(ctx, rule='R13-copies-keep-state'):
     """"explicitly assigned" lives in a per-packet slot that is not a field: a copy of a packet
     (prototype defaults of Ref are copies) keeps it only if every slot is copied.  The default
     copy / pickle protocol does that; a protocol method of Packet that rebuilds the packet from
     its field values does not"""
     repo = ctx.repo
-    rule = 'R13-copies-keep-state'
     pk = repo.cls('Packet')
     found = [(n, fi) for c in repo.mro(pk) for n, fi in c.methods.items() if n in COPY_PROTOCOL]
     if not found:
         ctx.holds(rule, (pk.file, 'Packet'), 'Packet defines none of %s' % ', '.join(COPY_PROTOCOL[:6]), 'copies are made slot by slot by the default protocol: the flag slot travels with the raw value', pk.node.lineno, clause='a')
         return
     for n, fi in found:
-        rebuilds = [c for c in ast.walk(fi.node) if isinstance(c, ast.Call) and canon(c.func) in ('self.__class__', 'type(self)', 'cls')
-                    and any(k.arg is None for k in c.keywords)]
+        rebuilds = [c for c in ast.walk(fi.node) if isinstance(c, ast.Call) and canon(c.func) in ('self.__class__', 'type(self)', 'cls', 'self.__class__.__new__', 'object.__new__')]
         over_fields = any(isinstance(l, ast.For) and 'get_fields()' in canon(l.iter) for l in ast.walk(fi.node))
         if rebuilds and over_fields:
             ctx.violation(rule, fi, 'Packet.%s: %s' % (n, stmt_text(rebuilds[0])[:100]), 'the copy is rebuilt from the values of get_fields(): the "explicitly assigned" slot of a described field is not a field, so the copy reads as computed again', fi.node.lineno, clause='a', witness=True)
